@@ -32,7 +32,7 @@ ANCHORS = [
     "stereomolgraph.rdmol2graph:RDMol2StereoMolGraph.smg_from_rdmol",
 ]
 REQUIRED_ANCHORS = ANCHORS
-REQUIRED = ["roundtrips", "molgraph_roundtrips", "desc:Tetrahedral", "desc:Tetrahedral+lone-pair", "desc:SquarePlanar", "desc:TrigonalBipyramidal", "desc:Octahedral", "ez_roundtrips", "ez_descriptors", "adjacent_centres"]
+REQUIRED = ["roundtrips", "molgraph_roundtrips", "desc:Tetrahedral", "desc:Tetrahedral+lone-pair", "desc:SquarePlanar", "desc:TrigonalBipyramidal", "desc:Octahedral", "ez_roundtrips", "ez_descriptors", "adjacent_centres", "exports_after_in_place_rewiring"]
 CASE_TIMEOUT = 120
 EZ = ["F/C=C/Cl", "F/C=C\\Cl", "C/C=C/C", "C/C=C\\C", "C/C(F)=C(/Cl)C", "CC/C=C/CO", "OC/C=C\\CC", "C/C=C/CC/C=C\\C", "CC(/C=C/C)O", "Cl/C=C/CC(C)C", "C1CC/C=C\\CCC1", "C/C=C(/C)CC", "N/C=C/C", "CS/C=C\\C",
       # double bonds with a lone-pair end (placeholder descriptors), alone and next to an ordinary alkene elsewhere in the molecule
@@ -234,4 +234,50 @@ def check_case(ctx, case):
                 ctx.violate(f"{P}/ez-missing/{fkey}", f"double bond {sorted(b)}: {dsc} came back as {e} ({case['smiles']})", case)
             elif not sem.desc_equiv(dsc, e):
                 ctx.violate(f"{P}/ez-wrong/{fkey}", f"double bond {sorted(b)}: {dsc} came back as {e} ({case['smiles']})", case)
+    if kind == "ez" and idfam == "main":
+        _export_again_after_rewiring(ctx, g, case)
     ctx.sample({"kind": kind, "ids": idfam, "graph": pg_to_json(pg) if len(pg["atoms"]) <= 10 else case.get("smiles")})
+
+
+def _bond_types(mol):
+    return {frozenset((b.GetBeginAtom().GetAtomMapNum(), b.GetEndAtom().GetAtomMapNum())): str(b.GetBondType()) for b in mol.GetBonds()}
+
+
+def _export_again_after_rewiring(ctx, g, case):
+    """history: the SAME graph object is exported, rewired in place by a 1,3-hydrogen shift (atom and bond counts
+    unchanged, the double bond moves) and exported again; the second export must be that of the graph as it is now,
+    i.e. equal to the export of a freshly built graph with the same content"""
+    S = snap(g)
+    nb = sem.pg_neighbors(S)
+    z = lambda a: S["atoms"][a]["atom_type"]
+    shift = None
+    for b in sorted(S["bstereo"], key=lambda x: sorted(x, key=repr)):
+        for c1, c2 in (tuple(b), tuple(b)[::-1]):
+            for c3 in sorted(nb[c2] - {c1}, key=repr):
+                hs = [h for h in nb[c3] if z(h) == 1]
+                if z(c1) == 6 and z(c2) == 6 and z(c3) == 6 and len(nb[c3]) == 4 and len(nb[c1]) == 3 and len(nb[c2]) == 3 and hs:
+                    shift = (c1, c2, c3, sorted(hs, key=repr)[0])
+                    break
+            if shift:
+                break
+        if shift:
+            break
+    if not shift:
+        return
+    c1, c2, c3, h = shift
+    try:
+        g.delete_bond_stereo((c1, c2))
+        if c3 in S["astereo"]:
+            g.delete_atom_stereo(c3)
+        g.remove_bond(c3, h)
+        g.add_bond(c1, h)
+        mol2, _ = g._to_rdmol(generate_bond_orders=True)
+        fresh, _ = build(snap(g))._to_rdmol(generate_bond_orders=True)
+    except Exception as e:  # noqa: BLE001
+        ctx.violate(f"C13/export-raises:{type(e).__name__}/after-in-place-rewiring", f"{case.get('smiles')}: {e!r}", case)
+        return
+    ctx.count("exports_after_in_place_rewiring")
+    a, b = _bond_types(mol2), _bond_types(fresh)
+    if a != b:
+        k = next(k for k in set(a) | set(b) if a.get(k) != b.get(k))
+        ctx.violate("C13/export-differs-from-fresh-graph/after-in-place-rewiring", f"{case.get('smiles')}: after a 1,3-hydrogen shift in place the second export writes bond {sorted(k)} as {a.get(k)}, the export of a freshly built equal graph as {b.get(k)}", case)
